@@ -161,7 +161,16 @@ pub fn check_api(ctx: &mut Ctx, sp: &Space<usize>, how: &str, op: ApiOp, tts: &[
 // API lets a caller choose any usize id. Everything here compares symbols by (id, name)
 // explicitly instead of through the subject's Eq / Ord.
 
+thread_local! {
+    /// second symbol set of the sweep: three different ids that share ONE name allocation
+    static NW_SHARED_NAME: std::cell::Cell<bool> = const { std::cell::Cell::new(false) };
+}
+
 fn nw_syms() -> Vec<NamedSymbol> {
+    if NW_SHARED_NAME.with(|c| c.get()) {
+        let name = Rc::new("shared".to_string());
+        return [3usize, 7, 11].iter().map(|i| NamedSymbol { name: name.clone(), id: *i }).collect();
+    }
     #[cfg(target_pointer_width = "64")]
     let ids = [1usize, (1 << 32) + 1, (1 << 40) + 1];
     #[cfg(not(target_pointer_width = "64"))]
@@ -234,7 +243,7 @@ fn nw_intern(env: &Rc<rsbdd::bdd::BDDEnv<NamedSymbol>>, b: &BDD<NamedSymbol>) ->
 fn nw_check(ctx: &mut Ctx, env: &Rc<rsbdd::bdd::BDDEnv<NamedSymbol>>, syms: &[NamedSymbol], op: ApiOp, tts: &[u64], oracle: Oracle, prop_tag: &str) {
     // the sweep shares one environment per worker, so a violation may depend on what that worker
     // computed before: the case records the shard, and a replay re-runs that shard's sequence
-    let case = json!({"part": "named-wide", "op": op.name(), "operands": tts, "shard": ctx.shard, "nshards": ctx.nshards});
+    let case = json!({"part": "named-wide", "op": op.name(), "operands": tts, "shard": ctx.shard, "nshards": ctx.nshards, "shared_name": NW_SHARED_NAME.with(|c| c.get())});
     ctx.begin_case(|| case.clone());
     ctx.count("transitions", 1);
     ctx.count("named_wide_ids", 1);
@@ -279,6 +288,13 @@ fn nw_check(ctx: &mut Ctx, env: &Rc<rsbdd::bdd::BDDEnv<NamedSymbol>>, syms: &[Na
 /// every unary / binary connective on every operand tuple of F_3 (ite with a constant or
 /// variable condition) in a BDDEnv<NamedSymbol> whose ids agree in their low 32 bits
 pub fn sweep_named_wide(ctx: &mut Ctx, oracle: Oracle, prop_tag: &str) {
+    sweep_named_wide_set(ctx, oracle, prop_tag);
+    NW_SHARED_NAME.with(|c| c.set(true));
+    sweep_named_wide_set(ctx, oracle, prop_tag);
+    NW_SHARED_NAME.with(|c| c.set(false));
+}
+
+fn sweep_named_wide_set(ctx: &mut Ctx, oracle: Oracle, prop_tag: &str) {
     let syms = nw_syms();
     let env = Rc::new(rsbdd::bdd::BDDEnv::<NamedSymbol>::new());
     let conds: Vec<u64> = vec![0, 0xff, 0xaa, 0xcc, 0xf0];
@@ -303,7 +319,7 @@ pub fn replay_named_wide(ctx: &mut Ctx, case: &Value, oracle: Oracle, prop_tag: 
     let mut c2 = Ctx::new(prop_tag, ctx.tier, ctx.seed, shard, nshards);
     sweep_named_wide(&mut c2, oracle, prop_tag);
     for v in c2.violations {
-        if v.replay["op"] == case["op"] && v.replay["operands"] == case["operands"] {
+        if v.replay["op"] == case["op"] && v.replay["operands"] == case["operands"] && v.replay["shared_name"] == case["shared_name"] {
             ctx.violation(v.key, v.what, v.replay);
         }
     }
